@@ -22,6 +22,9 @@ func decide(c *an.Ctx, rule, fnKey string, cfg an.DecideCfg) {
 	c.Analysed(fnKey)
 	t0 := time.Now()
 	res := c.Decide(fn, cfg)
+	for k := range res.Inlined {
+		c.Analysed(k)
+	}
 	if d := time.Since(t0); d > 2*time.Second {
 		c.Notes = append(c.Notes, fmt.Sprintf("slow decision-tree extraction: %s took %s (%d runs)", fnKey, d.Round(time.Millisecond), res.Runs))
 	}
